@@ -299,4 +299,6 @@ class LinkedContext(ContextBase):
         self.linked_context[name] = value
 
     def create_child_context(self):
+        if isinstance(self.linked_context, (MultiContext, LinkedContext)):
+            return Context(self)
         return type(self.linked_context)(self)
